@@ -379,6 +379,11 @@ struct H{
 			}
 			std::size_t fn = a[o], k = a[o + 1], bs = a[o + 2], seed = a[o + 3], x = a[o + 4], y = a[o + 5];
 			if(s.numberOfElements() == 0 || k == 0 || fn > 5) return "undefined";
+			{	// a part with a batch listed twice holds elements twice: the oracle identifies elements by their id, so such parts are skipped
+				Flat fl = flat(s); std::vector<std::size_t> ids; for(Elem const& x: fl) ids.push_back(x.first);
+				std::sort(ids.begin(), ids.end());
+				if(std::adjacent_find(ids.begin(), ids.end()) != ids.end()) return "undefined";
+			}
 			s.makeIndependent();              // documented precondition of repartitioning a subset (dataset_subsets tutorial)
 			CVFolds<DS> f;
 			std::string out = construct(fn, s, k, fn == 5 ? 0 : bs, seed, x, y, 0, 0, f);
